@@ -98,6 +98,8 @@ Inputs == { [fam |-> f, n |-> n, allow |-> "any"] : f \in FamilyNames \ {"prolog
           \cup { [fam |-> "prologaxes", n |-> n, allow |-> "any"] : n \in 1..PrologMembers }
           \cup { [fam |-> f, n |-> n, allow |-> "any"] : f \in NestingFamilies, n \in DeepSizes }
           \cup { [fam |-> f, n |-> n, allow |-> "any"] : f \in FlatFamilies, n \in {m \in DeepSizes : m <= 3000} }
+          \* linear in n and never nested by the grammar's own depth guard: a run of 100 000 unary minus signs
+          \cup { [fam |-> "minus", n |-> 100000, allow |-> "any"] }
           \cup { [fam |-> "named", n |-> k, allow |-> Named[k].allow] : k \in 1..Len(Named) }
 Next == (\E i \in Inputs : Call(i)) \/ (\E e \in BOOLEAN : Return(e)) \/ Error
 Spec == CInit /\ [][Next]_vars
